@@ -177,5 +177,34 @@ theorem compareAndPreserve_from_source (op : CmpOp) (a b : V) :
       interpCap P m (lookup MJ.Gen.vmCompareAndPreserveTable (lookup1 MJ.Gen.compareOpTable (rustCmp op))) a b := by
   cases op <;> rfl
 
+/-! ## the traversal: which expression variants are folded at all -/
+
+/-- the Rust variant a model expression stands for -/
+def rustVariant : Expr → String
+  | .const _ => "Const" | .var _ => "Var" | .list _ => "List" | .tuple _ => "Tuple" | .map _ => "Map"
+  | .not _ | .neg _ => "UnaryOp" | .bin .. => "BinOp" | .cmp .. => "Compare"
+  | .getAttr .. => "GetAttr" | .getItem .. => "GetItem" | .slice .. => "Slice" | .ifExpr .. => "IfExpr"
+  | .filter .. => "Filter" | .test .. => "Test" | .call .. => "Call"
+
+/-- variants the model never folds -/
+def unfoldedVariants : List String := ["Var", "Slice", "IfExpr", "Filter", "Test", "GetAttr", "GetItem", "Call"]
+
+/-- `Expr::as_const` has an arm exactly for the variants the model folds, everything else (`_ =>
+    None`) is exactly what the model leaves to the run time, the model covers every variant of
+    `enum Expr`, and the code generator evaluates at compile time in exactly the three places the
+    model knows (`as_const` first, the `Neg` shortcut, static keyword arguments; `as_const` is
+    called from one place).  A newly folded variant or a new special case breaks this theorem. -/
+theorem traversal_from_source :
+    sameSet MJ.Gen.asConstArms ["Const", "List", "Tuple", "Map", "UnaryOp", "BinOp", "Compare"] = true ∧
+    sameSet MJ.Gen.exprVariants (MJ.Gen.asConstArms ++ unfoldedVariants) = true ∧
+    MJ.Gen.codegenSpecials = ["fold-first", "neg-const-shortcut", "static-kwargs"] ∧
+    MJ.Gen.codegenAsConstUses = 1 := by
+  decide
+
+/-- the model folds only variants for which `as_const` has an arm -/
+theorem asConst_only_listed_arms (e : Expr) (h : asConst P e ≠ none) :
+    MJ.Gen.asConstArms.contains (rustVariant e) = true := by
+  cases e <;> first | rfl | (exfalso; exact h (by simp [asConst]))
+
 end
 end MJ.Fold.Tables
